@@ -52,6 +52,15 @@ mutual
 partial def pItem : P Item := do
   match (← tok) with
   | "t" => pure (.text (← tok))
+  -- a pure expression with one filter / test: its value does not depend on where it stands, so
+  -- to the composition model it is text — what it prints when rendered on its own (the harness
+  -- passes that along), or nothing when it is hidden in a branch that does not run.  That the
+  -- per-activation caches respect this is `MJ.C06.parent_switch_resets_per_template_state`.
+  | "fx" => do
+    let hide ← num; let _name ← tok; let expected ← tok
+    pure (.text (if hide == 0 then expected else ""))
+  -- `{{ fuse() }}` prints nothing (the recovery stream arms it only for extra renders)
+  | "fuse" => pure (.text "")
   | "b" => pure (.callBlock (← num))
   | "s" => pure .super
   | "x" => do
